@@ -80,6 +80,50 @@ def pre_as_montgomery := rep 9 lim
 def pre_from_montgomery := rep 9 lim
 end Scalar29
 
+namespace FiatField51
+/-! fiat u64 wrapper backend (`backend/serial/fiat_u64/field.rs` with the called `fiat_crypto::curve25519_64`
+functions inlined).  `tight` / `loose` are the bounds documented on `fiat_25519_tight_field_element` /
+`fiat_25519_loose_field_element` (inclusive). -/
+def tight : Itv := ub 0x8000000000000
+def loose : Itv := ub 0x18000000000000
+def pre_add := rep 10 tight
+def pre_add_ref := rep 10 tight
+def pre_sub := rep 10 tight
+def pre_sub_assign := rep 10 tight
+def pre_mul := rep 10 tight
+def pre_mul_assign := rep 10 tight
+def pre_neg := rep 5 tight
+def pre_reduce := rep 5 loose
+def pre_from_bytes := bytes 32
+def pre_as_bytes := rep 5 tight
+def pre_square := rep 5 tight
+def pre_square2 := rep 5 tight
+def pre_pow2k_body := rep 5 tight
+def pre_conditional_select := rep 10 (ub (2 ^ 64 - 1)) ++ [ub 1]
+def pre_conditional_assign := rep 10 (ub (2 ^ 64 - 1)) ++ [ub 1]
+end FiatField51
+
+namespace FiatField26
+/-! fiat u32 wrapper backend: even limbs 26 bits, odd limbs 25 bits; documented tight bounds
+`0x4000000` / `0x2000000`, loose bounds `0xc000000` / `0x6000000` (inclusive). -/
+def tight : List Itv := (List.range 10).map (fun i => ub (if i % 2 = 0 then 0x4000000 else 0x2000000))
+def loose : List Itv := (List.range 10).map (fun i => ub (if i % 2 = 0 then 0xc000000 else 0x6000000))
+def pre_add := tight ++ tight
+def pre_add_ref := tight ++ tight
+def pre_sub := tight ++ tight
+def pre_sub_assign := tight ++ tight
+def pre_mul := tight ++ tight
+def pre_mul_assign := tight ++ tight
+def pre_neg := tight
+def pre_from_bytes := bytes 32
+def pre_as_bytes := tight
+def pre_square := tight
+def pre_square2 := tight
+def pre_pow2k_body := tight
+def pre_conditional_select := rep 20 (ub (2 ^ 32 - 1)) ++ [ub 1]
+def pre_conditional_assign := rep 20 (ub (2 ^ 32 - 1)) ++ [ub 1]
+end FiatField26
+
 namespace Clamp
 def pre_clamp_integer := bytes 32
 end Clamp
@@ -259,6 +303,35 @@ def kernels : List (String × String × Prog × List Itv) := [
   ("Scalar29", "montgomery_reduce", Dalek.Gen.Scalar29.montgomery_reduce, Scalar29.pre_montgomery_reduce),
   ("Scalar29", "montgomery_square", Dalek.Gen.Scalar29.montgomery_square, Scalar29.pre_montgomery_square),
   ("Scalar29", "from_montgomery", Dalek.Gen.Scalar29.from_montgomery, Scalar29.pre_from_montgomery),
+  ("FiatField51", "add", Dalek.Gen.FiatField51.add, FiatField51.pre_add),
+  ("FiatField51", "add_ref", Dalek.Gen.FiatField51.add_ref, FiatField51.pre_add_ref),
+  ("FiatField51", "sub", Dalek.Gen.FiatField51.sub, FiatField51.pre_sub),
+  ("FiatField51", "sub_assign", Dalek.Gen.FiatField51.sub_assign, FiatField51.pre_sub_assign),
+  ("FiatField51", "mul", Dalek.Gen.FiatField51.mul, FiatField51.pre_mul),
+  ("FiatField51", "mul_assign", Dalek.Gen.FiatField51.mul_assign, FiatField51.pre_mul_assign),
+  ("FiatField51", "neg", Dalek.Gen.FiatField51.neg, FiatField51.pre_neg),
+  ("FiatField51", "reduce", Dalek.Gen.FiatField51.reduce, FiatField51.pre_reduce),
+  ("FiatField51", "from_bytes", Dalek.Gen.FiatField51.from_bytes, FiatField51.pre_from_bytes),
+  ("FiatField51", "as_bytes", Dalek.Gen.FiatField51.as_bytes, FiatField51.pre_as_bytes),
+  ("FiatField51", "square", Dalek.Gen.FiatField51.square, FiatField51.pre_square),
+  ("FiatField51", "square2", Dalek.Gen.FiatField51.square2, FiatField51.pre_square2),
+  ("FiatField51", "pow2k_body", Dalek.Gen.FiatField51.pow2k_body, FiatField51.pre_pow2k_body),
+  ("FiatField51", "conditional_select", Dalek.Gen.FiatField51.conditional_select, FiatField51.pre_conditional_select),
+  ("FiatField51", "conditional_assign", Dalek.Gen.FiatField51.conditional_assign, FiatField51.pre_conditional_assign),
+  ("FiatField26", "add", Dalek.Gen.FiatField26.add, FiatField26.pre_add),
+  ("FiatField26", "add_ref", Dalek.Gen.FiatField26.add_ref, FiatField26.pre_add_ref),
+  ("FiatField26", "sub", Dalek.Gen.FiatField26.sub, FiatField26.pre_sub),
+  ("FiatField26", "sub_assign", Dalek.Gen.FiatField26.sub_assign, FiatField26.pre_sub_assign),
+  ("FiatField26", "mul", Dalek.Gen.FiatField26.mul, FiatField26.pre_mul),
+  ("FiatField26", "mul_assign", Dalek.Gen.FiatField26.mul_assign, FiatField26.pre_mul_assign),
+  ("FiatField26", "neg", Dalek.Gen.FiatField26.neg, FiatField26.pre_neg),
+  ("FiatField26", "from_bytes", Dalek.Gen.FiatField26.from_bytes, FiatField26.pre_from_bytes),
+  ("FiatField26", "as_bytes", Dalek.Gen.FiatField26.as_bytes, FiatField26.pre_as_bytes),
+  ("FiatField26", "square", Dalek.Gen.FiatField26.square, FiatField26.pre_square),
+  ("FiatField26", "square2", Dalek.Gen.FiatField26.square2, FiatField26.pre_square2),
+  ("FiatField26", "pow2k_body", Dalek.Gen.FiatField26.pow2k_body, FiatField26.pre_pow2k_body),
+  ("FiatField26", "conditional_select", Dalek.Gen.FiatField26.conditional_select, FiatField26.pre_conditional_select),
+  ("FiatField26", "conditional_assign", Dalek.Gen.FiatField26.conditional_assign, FiatField26.pre_conditional_assign),
   ("Clamp", "clamp_integer", Dalek.Gen.Clamp.clamp_integer, Clamp.pre_clamp_integer),
   ("Avx2Field", "new", Dalek.Gen.Avx2Field.new, Avx2Field.pre_new),
   ("Avx2Field", "split", Dalek.Gen.Avx2Field.split, Avx2Field.pre_split),
